@@ -30,7 +30,7 @@ m = {
     ],
     'checks': [],
     'not_applicable': NOT_APPLICABLE,
-    'notes': 'See DESIGN.md.  Exit 3 = harness error / inconclusive (never reported as pass or violation).',
+    'notes': 'See DESIGN.md.  Exit 3 = harness error / inconclusive (never reported as pass or violation).  Known findings (open and fixed): known_findings.json, never written at run time.  Seeded changes: seeded/.',
 }
 for c in CHECKS:
     m['checks'].append({
